@@ -1027,8 +1027,9 @@ class OmegaMap(FeatureNormalizer):
         n = np.abs(n)
         n[n_nan_mask | n_zero_mask] = 1e-10
 
-        s2[s2_nan_mask] = 0
-        alpha[alpha_nan_mask] = 0
+        # (copies: s2 and alpha are rows of the caller's feature array)
+        s2 = np.where(s2_nan_mask, 0, s2)
+        alpha = np.where(alpha_nan_mask, 0, alpha)
 
         s2 = np.clip(s2, -1e10, 1e10)
         alpha = np.clip(alpha, -1e10, 1e10)
